@@ -6,9 +6,14 @@ import (
 
 	"verif/internal/chain"
 	"verif/internal/checks"
+	"verif/internal/ev"
 )
 
 func main() {
+	if r := os.Getenv("VERIF_ROOT"); r != "" {
+		ev.Root = r
+		chain.SockRoot = r + "/.work/sock"
+	}
 	code := run()
 	chain.CleanupSockets()
 	os.Exit(code)
